@@ -15,8 +15,16 @@ def one(d):
         p = subprocess.run(["git", "apply", os.path.join(d, "patch.diff")], cwd=wt, capture_output=True, text=True)
         if p.returncode != 0:
             return os.path.basename(d), None
+        only = os.environ.get("NF_PROPS", "").split()
+        if only:
+            # refresh the named properties only; keep what was recorded for the others
+            ev0 = os.path.join(d, "eval.json")
+            if os.path.exists(ev0):
+                alarms = {k: v for k, v in json.load(open(ev0)).get("alarms", {}).items() if k not in only}
         for chk in MAN["checks"]:
             pid = chk["property_id"]
+            if only and pid not in only:
+                continue
             r = subprocess.run([os.path.join(V, "bin", "ikelint"), "-repo", wt, "-prop", pid, "-no-evidence", "-known", os.path.join(V, "known_findings.json")], cwd=V, capture_output=True, text=True)
             out = r.stdout + r.stderr
             if r.returncode != 0:
